@@ -3,6 +3,8 @@ import contextlib
 import copy
 import gc
 import io
+import json
+import os
 import types
 
 from hypothesis import strategies as st
@@ -44,6 +46,12 @@ def make(debug, cells=None):
 
     def inner_ok(*a):
         return P.parse('SUM(1,2)+v_a')['result']
+    counter = [0]
+
+    def varboom(*a):
+        counter[0] += 1
+        raise ValueError('unexpected reading %d.%d for row %d' % (counter[0], counter[0] * 7, counter[0] * 13))
+    P.set_function('VARBOOM', varboom)
     P.set_function('BOOM', boom)
     P.set_function('XBOOM', xboom)
     P.set_function('INNERFAIL', inner_fail)
@@ -190,6 +198,7 @@ def hist_classes(case):
 # ---------------------------------------------------------------- no mutation of host values
 
 MUT_FORMULAS = [
+    'v_one*v_l', 'v_one+{1,2,3}', 'v_l-v_one', 'v_one/v_m', 'SUM(v_one*v_l)+SUM(v_one*{1,2})', 'v_row+v_n', 'v_row*{1,2;3,4}', 'v_one&"x"', 'v_one=v_one',
     'v_l*2', '2*v_l', 'v_l+v_m', 'v_m-1', '-1+v_m', 'v_l/2', '{v_l,1}', '{1,v_l}', '{v_l;v_m}', 'HF(v_l,,v_m)', 'HF(,v_l)', 'HF(v_l,)', 'HF(v_l;v_m;1)',
     'SUM(v_l,v_m)', 'SUM(v_n)', 'PRODUCT(v_n)', 'AVERAGE(v_n)', 'MIN(v_n)', 'MAX(v_n)', 'COUNT(v_n)', 'MEDIAN(v_n)', 'MODE(v_k)', 'VAR(v_n)', 'STDEV(v_n)', 'AVEDEV(v_n)', 'LARGE(v_n,2)', 'LARGE(v_m,1)',
     'INDEX(v_m,2)', 'INDEX(v_n,1)', 'INDEX(v_n,1,2)', 'INDEX(v_n,0,1)', 'INDEX(v_n,1)*2', 'MATCH(2,v_m,0)', 'MATCH(2,v_m,1)', 'TEXTJOIN(",",TRUE,v_t)', 'CONCATENATE(v_t,v_l)', 'SUMIFS(v_l,v_m,">1")',
@@ -215,7 +224,7 @@ def mut_case(draw):
 
 
 def check_mutation(case):
-    host = {'v_l': list(case['l']), 'v_m': list(case['m']), 'v_n': [list(r) for r in case['n']], 'v_k': list(case['k']), 'v_t': list(case['t'])}
+    host = {'v_l': list(case['l']), 'v_m': list(case['m']), 'v_n': [list(r) for r in case['n']], 'v_k': list(case['k']), 'v_t': list(case['t']), 'v_one': [case['l'][0]], 'v_row': [list(case['m'])]}
     rng = [[1, 2], [3, 4]]
     cellv = [7, [8, 9]]
     ret = [10, 20, 30]
@@ -250,7 +259,7 @@ def check_mutation(case):
 
 # ---------------------------------------------------------------- no retention
 
-RETAIN = ['1+1', 'SUM(1,2,3)*4+A1', 'IF(1<2,"a","b")&"c"', '1/0', '1+', '((', 'nosuch', 'NOSUCH(1)', 'SUM(1/0)', 'SUM(v_e)', 'MAX({1,2},NA())', 'IFERROR(CONCATENATE(1/0),1)', 'IFERROR(SUM(1/0),0)',
+RETAIN = ['VARBOOM(1)', '1+VARBOOM()', 'IFERROR(VARBOOM(),1)', '1+1', 'SUM(1,2,3)*4+A1', 'IF(1<2,"a","b")&"c"', '1/0', '1+', '((', 'nosuch', 'NOSUCH(1)', 'SUM(1/0)', 'SUM(v_e)', 'MAX({1,2},NA())', 'IFERROR(CONCATENATE(1/0),1)', 'IFERROR(SUM(1/0),0)',
           '#N/A', '1+#REF!', 'BOOM(1)', 'XBOOM()', 'IFERROR(XBOOM(),1)', 'Z9+1', 'INNERFAIL(1)', 'v_s+1', 'SQRT(-1)', 'MATCH("a*",{"ab","cd"},0)', 'TEXT(1234.5,"#,##0.00")', 'DATEVALUE("2019-11-20")',
           '~', 'INDEX(v_l,9)', 'LEFT(1)', 'AVERAGE({1,2},1/0)', 'PRODUCT(v_e)', 'COUNTIF({"ab","cd"},"a*")', 'ISERROR(MEDIAN(v_e))']
 
@@ -327,6 +336,75 @@ def ret_key(case):
     return 'retention'
 
 
+# ---------------------------------------------------------------- evaluation order in a brand-new interpreter
+ORD_FAMILIES = [
+    ['TRUE', '1', '1.0', 'v_t', 'v_i', 'v_f', '(2>1)', '1E0', '"1"', '"1.0"', 'v_s', 'v_e', 'DATE(1899,12,31)', '"TRUE"'],
+    ['FALSE', '0', '0.0', 'v_u', 'v_o', 'v_z', 'v_nz', '(1>2)', '"0"', '(-0.0)', '"FALSE"', '"0.0"'],
+    ['2', '2.0', 'v_w', 'v_x', '"2"', 'v_d', 'DATE(1900,1,1)', '"2.0"', '2E0'],
+    ['v_big', 'v_bigf', '9007199254740992', '9007199254740992.0', '9007199254740993', '"9007199254740992"'],
+    ['100', '100.0', '1E2', '"100"', '"1E2"', '0.5', '"0.5"', '.5'],
+]
+ORD_ATOMS = sorted(set(x for fam in ORD_FAMILIES for x in fam))
+ORD_WRAPS = ['(%s)&""', 'TYPE(%s)', '%s', 'ISNUMBER(%s)&ISTEXT(%s)&ISLOGICAL(%s)', 'N(%s)&""', 'T(%s)&"."', 'SUM(%s)&""', 'ABS(%s)&""', '(%s)*1&""', 'IF(%s,"y","n")', 'EXACT(%s,1)', 'MAX(%s,0)&""', '(-(%s))&""', 'TEXTJOIN("/",TRUE,%s)']
+ORD_OPS = ['+', '+', '-', '*', '*', '/', '&', '=', '<', '<>', '>=']     # no ^: exact integer powers of 2^53-sized operands run for hours inside CPython (scope note in DESIGN.md)
+ORD_LISTS = ['SUM(v_l)&""', 'v_l&""', 'v_m&""', 'MAX(v_m)&""', 'v_l=v_m', 'TEXTJOIN("/",TRUE,v_l)', 'TEXTJOIN("/",TRUE,v_m)', 'MATCH(TRUE,v_l,0)', 'MATCH(1,v_m,0)', 'INDEX(v_l,2)&""', 'COUNTIF(v_l,1)', 'COUNTIF(v_m,TRUE)']
+
+
+@st.composite
+def order_formulas(draw):
+    fam = draw(st.sampled_from(ORD_FAMILIES))
+    atom = st.one_of(st.sampled_from(fam), st.sampled_from(fam), st.sampled_from(fam), st.sampled_from(ORD_ATOMS))
+    out = []
+    for _ in range(draw(st.integers(2, 6))):
+        k = draw(st.integers(0, 11))
+        if k == 0:
+            out.append(draw(st.sampled_from(ORD_LISTS)))
+            continue
+        a = draw(atom)
+        if k <= 3:
+            inner = a
+        else:
+            # the same operand twice is the sharpest observer of a conversion that depends on what was seen before
+            inner = '(%s%s%s)' % (a, draw(st.sampled_from(ORD_OPS)), a if k >= 9 else draw(atom))
+        f = draw(st.sampled_from(ORD_WRAPS)).replace('%s', inner)
+        if f not in out:
+            out.append(f)
+    if len(out) < 2:
+        out.append('TYPE(%s)' % fam[0] if 'TYPE(%s)' % fam[0] not in out else '1+1')
+    return out
+
+
+order_case = st.fixed_dictionaries({'formulas': order_formulas(), 'debug': st.booleans(), 'perm': st.integers(0, 10 ** 6)})
+
+
+def run_fresh(formulas, debug):
+    import subprocess
+    import sys
+    from .. import snapshot
+    here = os.path.join(os.path.dirname(os.path.dirname(os.path.abspath(__file__))), 'fresh_eval.py')
+    p = subprocess.run([sys.executable, here, snapshot.directory()], input=json.dumps({'formulas': formulas, 'debug': debug}), capture_output=True, text=True, timeout=120,
+                       env=dict(os.environ, PYTHONHASHSEED='0', PYTHONDONTWRITEBYTECODE='1'))
+    if p.returncode != 0:
+        # the library cannot even be imported or the child died: not a verdict about evaluation order
+        raise RuntimeError('fresh interpreter failed: %s' % p.stderr[-400:])
+    return json.loads(p.stdout)
+
+
+def check_order(case):
+    fs = case['formulas']
+    import random
+    order = list(range(len(fs)))
+    random.Random(case['perm']).shuffle(order)
+    if order == list(range(len(fs))):
+        order.reverse()
+    a = run_fresh(fs, case['debug'])
+    b = run_fresh([fs[i] for i in order], case['debug'])
+    for j, i in enumerate(order):
+        if a[i] != b[j]:
+            raise Violation('in a brand-new interpreter %r gives %s when evaluated as number %d of %r and %s as number %d of the same formulas in another order (each on its own new parser)'
+                            % (fs[i], a[i], i + 1, fs, b[j], j + 1), observed=b[j], expected=a[i])
+
+
 LAWS = [
     Law('history_independence', check_history, strategy=history_case, classes=hist_classes, quick=3500, thorough=150000, shards=(16, 16),
         required=('callback-aborted', 'nested-failure', 'syntax-error', 'error-literal', 'rebinding', 'other-parser-registration', 'debug:True', 'debug:False'),
@@ -337,6 +415,11 @@ LAWS = [
         nontrivial=lambda c: len(c['formulas']) >= 2,
         rule='1-4 of 75 formulas that push host lists (variable values flat and nested, a listener-served range and cell value, arguments handed to and a list returned by custom functions) through array arithmetic, array literals, omitted-slot calls, '
              'every aggregate, LARGE/MEDIAN/INDEX/MATCH/TEXTJOIN/CONCATENATE/SUMIFS...: afterwards every host list is deep-equal to its copy and consists of the very same list objects'),
+    Law('order_independence', check_order, strategy=order_case, quick=170, thorough=12000, shards=(16, 16), key=lambda c: '',
+        classes=lambda c: ('debug:%s' % c['debug'], 'n%d' % min(len(c['formulas']), 4)), required=('debug:True', 'debug:False', 'n2', 'n4'),
+        nontrivial=lambda c: len(c['formulas']) >= 3,
+        rule='2-6 distinct formulas over values that are equal but of different kinds (TRUE/1/1.0/"1", 0/0.0/-0.0, 2^53 as int and float, a date and its serial, lists of them) under observers that tell the kinds apart (&"", TYPE, IS*, N, T, EXACT, MATCH, COUNTIF, TEXTJOIN), '
+             'each on its own new parser, are evaluated in a brand-new interpreter process in one order and in a second brand-new interpreter in a shuffled order: every formula must give the same outcome in both (this reaches state kept at module level, which an oracle living in the same process would share); non-trivial = at least 3 formulas'),
     Law('no_retention', check_retention, strategy=st.fixed_dictionaries({'f': st.sampled_from(RETAIN), 'n': st.sampled_from([50, 200]), 'debug': st.booleans()}), key=ret_key,
         quick=200, thorough=4000, shards=(16, 16), shrink=False,
         classes=lambda c: ('debug:%s' % c['debug'], 'n%d' % c['n']), required=('debug:True', 'debug:False', 'n50', 'n200'),
